@@ -79,6 +79,12 @@ def generate(seed, tier="quick"):
         f = prog["files"][-1]
         t = f["tests"][-1] if xr.random() < 0.6 else xr.choice(f["tests"])
         t["xfail"] = True  # the last test of the session, or some test in between
+    if driver == "plugin":
+        # some sessions of the real plugin approve through the review prompts (answer yes exactly for the approved categories)
+        rrng = sub(seed, "review")
+        for st in steps:
+            if rrng.random() < 0.4:
+                st["review"] = True
     W.sprinkle_uni(prog, sub(seed, "uni"), 0.08)
     return {"program": prog, "steps": steps, "driver": driver, "fmt": draw_fmt(sub(seed, "fmt")),
             "profile": {"scalars": prof.scalars, "containers": prof.containers, "calls": prof.calls, "special": prof.special,
@@ -252,7 +258,11 @@ def execute(case, ctx):
         places = {(f["name"], sid): s["place"] for f in prog["files"] for sid, s in f["sites"].items()}
         events = [ev for ev in W.events_in_order(prog) if (ev[0], ev[1]) not in xfail_tests or places.get((ev[0], ev[2].get("site"))) == "module"]
         m = SessionModel(src, ops, approved).run(events, V.pyval)
-        new, res = sim.run_session(ctx, driver, files, {"flags": flags_for(driver, approved), "fmt": fmt})
+        spec = {"flags": flags_for(driver, approved), "fmt": fmt}
+        if step.get("review") and driver == "plugin":
+            spec = {"flags": "review", "answers": {c: c in approved for c in CATS}, "fmt": fmt}
+            ctx.count("probe_session_approved_through_review_answers")
+        new, res = sim.run_session(ctx, driver, files, spec)
         if not sim.session_completed(driver, res):
             if approved:
                 out["violations"].append(sim.completion_violation(driver, res, f"step {si} approved={sorted(approved)}"))
